@@ -56,14 +56,20 @@ def names_variants(p):
     return out
 
 
-def cyclic_variants(p, rng):
-    """G2 circuit plus a feedback edge g2 -> g1 (g1 multi-input) - cyclic, no self-loop."""
-    if p["ty"][3] in ("buf", "not") or 4 not in p["fi"][4]:
-        return []
-    q = copy.deepcopy(p)
-    q["fi"][3] = sorted(q["fi"][3] + [5])
-    q["acyc"] = False
-    return [q]
+def cyclic_variants(p, rng, self_loops=False):
+    """G2 circuit plus a feedback edge g2 -> g1 (g1 multi-input) - cyclic; optionally a gate that feeds itself."""
+    out = []
+    if p["ty"][3] not in ("buf", "not") and 4 in p["fi"][4]:
+        q = copy.deepcopy(p)
+        q["fi"][3] = sorted(q["fi"][3] + [5])
+        q["acyc"] = False
+        out.append(q)
+    if self_loops and p["ty"][4] not in ("buf", "not") and 5 not in p["fi"][4]:
+        q = copy.deepcopy(p)
+        q["fi"][4] = sorted(q["fi"][4] + [5])       # g2 = f(..., g2)
+        q["acyc"] = False
+        out.append(q)
+    return out
 
 
 def bb_small(rng):
@@ -120,7 +126,7 @@ def cases(ctx):
     fams.append(("NAMES", names))
     cyc = []
     for p in (rng.sample(g2, 600) if ctx.quick else g2):
-        cyc += cyclic_variants(p, rng)
+        cyc += cyclic_variants(p, rng, self_loops=True)
     fams.append(("GC", cyc))
     fams.append(("BB", bb_small(rng)))
     for src, fam in fams:
@@ -165,7 +171,7 @@ def solve_event(cg, c, p, assum_idx):
 def run_history(case, ctx):
     import circuitgraph as cg
 
-    c = build(case["c"])
+    c = build(case["c"], case.get("ord"))
     r = ctx.rng("C01hr", case["salt"])
     evs = [solve_event(cg, c, proj(c), [])]
     evs.append(solve_event(cg, c, proj(c), [[i, b] for i, b in case["assum"][0]]))
@@ -196,7 +202,7 @@ def run_case(case, ctx):
     if case["op"] == "solve_history":
         return run_history(case, ctx)
     p = case["c"]
-    c = build(p)
+    c = build(p, case.get("ord"))
     exc = ""
     ev = {"kind": case["op"], "c": p}
     multi = any(t in ("and", "nand", "or", "nor", "xor", "xnor") and len(p["fi"][i]) > 1 for i, t in enumerate(p["ty"]))
